@@ -15,6 +15,8 @@ func VFRun(env *vfc.Env) {
 		vfC15(env)
 	case "db.c10":
 		vfC10(env)
+	case "db.proto":
+		vfProto(env)
 	case "db.c13":
 		vfHistories(env, "c13", nil)
 	case "db.gc":
